@@ -16,6 +16,10 @@ use tokio::sync::Semaphore;
 
 const POINTS: [&str; 7] = ["accepted-nothing-sent", "handshake-sent", "login-start-sent", "encryption-request-received", "login-success-received", "waiting-for-slow-backend", "backend-done-transfer-unread"];
 
+fn point_name(spec_proxy: bool, p: usize) -> String {
+    if spec_proxy && p == 0 { "accepted-proxy-header-not-yet-sent".to_string() } else { POINTS[p].to_string() }
+}
+
 #[derive(Clone, Debug, Serialize, Deserialize, PartialEq)]
 pub struct Spec {
     a: usize,
@@ -27,6 +31,9 @@ pub struct Spec {
     a_stalls: bool,
     /// run through passage::start + SIGINT instead of a bare Listener
     via_start: bool,
+    /// PROXY protocol enabled: every client announces a source first (at point 0 the header is still outstanding)
+    #[serde(default)]
+    proxy: bool,
 }
 
 struct InFlight {
@@ -35,8 +42,12 @@ struct InFlight {
     point: usize,
 }
 
-async fn drive_to(server: SocketAddr, point: usize, gate: &Arc<Semaphore>, peer: &str) -> Option<InFlight> {
+async fn drive_to(server: SocketAddr, point: usize, gate: &Arc<Semaphore>, peer: &str, proxy: bool) -> Option<InFlight> {
     let mut c = McClient::connect(server, Some(peer.parse().unwrap())).await.ok()?;
+    if proxy && point > 0 {
+        let src: SocketAddr = format!("203.0.113.{}:5555", peer.rsplit('.').next().unwrap()).parse().unwrap();
+        c.send_raw(&proxy_v2(src, server)).await.ok()?;
+    }
     let mut out = LoginOutcome { packets: vec![], stage: Stage::Connected, error: None };
     let p = LoginParams { wait: Duration::from_secs(2), ..Default::default() };
     let until = match point {
@@ -65,8 +76,11 @@ async fn drive_to(server: SocketAddr, point: usize, gate: &Arc<Semaphore>, peer:
 }
 
 /// attempts a fresh connection; returns a description if it received any protocol byte
-async fn new_connection_served(server: SocketAddr) -> Option<String> {
+async fn new_connection_served(server: SocketAddr, proxy: bool) -> Option<String> {
     let Ok(mut c) = McClient::connect(server, Some("127.0.0.4".parse().unwrap())).await else { return None };
+    if proxy {
+        let _ = c.send_raw(&proxy_v1("203.0.113.4:5555".parse().unwrap(), server)).await;
+    }
     match c.status_exchange(Duration::from_millis(300)).await {
         Ok(_) => Some("a connection opened after the stop request completed a status exchange".into()),
         Err(_) if c.received > 0 => Some(format!("a connection opened after the stop request received {} bytes", c.received)),
@@ -87,15 +101,15 @@ fn run_schedule(spec: &Spec) -> Vec<(String, String)> {
         let gate = Arc::new(Semaphore::new(0));
         adapters.gate = Some(gate.clone());
         let timeout = if spec.a_stalls { Duration::from_secs(1) } else { Duration::from_secs(30) };
-        let cfg = ListenerCfg { timeout, ..Default::default() };
+        let cfg = ListenerCfg { timeout, proxy: spec.proxy.then_some((true, true)), ..Default::default() };
         let running = start_listener(&cfg, adapters).await;
-        let Some(mut a) = drive_to(running.addr, spec.a, &gate, "127.0.0.2").await else {
+        let Some(mut a) = drive_to(running.addr, spec.a, &gate, "127.0.0.2", spec.proxy).await else {
             common::machinery("could not bring connection A to its progress point");
         };
         let mut b = if spec.b == usize::MAX {
             None
         } else {
-            match drive_to(running.addr, spec.b, &gate, "127.0.0.3").await {
+            match drive_to(running.addr, spec.b, &gate, "127.0.0.3", spec.proxy).await {
                 Some(b) => Some(b),
                 None => common::machinery("could not bring connection B to its progress point"),
             }
@@ -110,10 +124,10 @@ fn run_schedule(spec: &Spec) -> Vec<(String, String)> {
         let a_open = spec.a < 6;
         let b_open = b.is_some() && spec.b < 6;
         if (a_open || b_open) && finished(&done) {
-            v.push(("listener-returned-with-connections-in-flight".into(), format!("listen() returned right after the stop although A ({}) {} unfinished", POINTS[spec.a], if b.is_some() { "and B are" } else { "is" })));
+            v.push(("listener-returned-with-connections-in-flight".into(), format!("listen() returned right after the stop although A ({}) {} unfinished", point_name(spec.proxy, spec.a), if b.is_some() { "and B are" } else { "is" })));
         }
         if spec.new_conn_at == 0 {
-            if let Some(t) = new_connection_served(running.addr).await {
+            if let Some(t) = new_connection_served(running.addr, spec.proxy).await {
                 v.push(("new-connection-served-after-stop".into(), t));
             }
         }
@@ -132,31 +146,37 @@ fn run_schedule(spec: &Spec) -> Vec<(String, String)> {
                     }
                 }
                 Ok(other) => v.push(("listener-failed".into(), format!("{other:?}"))),
-                Err(_) => v.push(("shutdown-not-bounded-by-connection-timeout".into(), format!("a non-cooperating client at '{}' kept listen() from returning for more than timeout + 2 s", POINTS[spec.a]))),
+                Err(_) => v.push(("shutdown-not-bounded-by-connection-timeout".into(), format!("a non-cooperating client at '{}' kept listen() from returning for more than timeout + 2 s", point_name(spec.proxy, spec.a)))),
             }
             return v;
         }
         // ---- drive A to completion (cooperating); the slow backend answers everybody from now on
         gate.add_permits(2);
+        if spec.proxy && spec.a == 0 {
+            let _ = a.client.send_raw(&proxy_v2("203.0.113.2:5555".parse().unwrap(), running.addr)).await;
+        }
         let from = a.out.stage;
         a.client.login(&p, from, Stage::Transferred, &mut a.out).await;
         if a.out.stage != Stage::Transferred || kinds(&a.out) != BASELINE {
-            v.push((format!("in-flight-connection-not-completed:{}", POINTS[a.point]), format!("A (at '{}' when the stop was requested) received {:?}, stage {:?}, error {:?}; an undisturbed login receives {BASELINE:?}", POINTS[a.point], kinds(&a.out), a.out.stage, a.out.error)));
+            v.push((format!("in-flight-connection-not-completed:{}", point_name(spec.proxy, a.point)), format!("A (at '{}' when the stop was requested) received {:?}, stage {:?}, error {:?}; an undisturbed login receives {BASELINE:?}", point_name(spec.proxy, a.point), kinds(&a.out), a.out.stage, a.out.error)));
         }
         let _ = a.client.wait_closed(Duration::from_secs(2)).await;
         if b_open && finished(&done) {
             v.push(("listener-returned-with-connections-in-flight".into(), "listen() returned after A finished although B is unfinished".into()));
         }
         if spec.new_conn_at == 1 {
-            if let Some(t) = new_connection_served(running.addr).await {
+            if let Some(t) = new_connection_served(running.addr, spec.proxy).await {
                 v.push(("new-connection-served-after-stop".into(), t));
             }
         }
         if let Some(b) = b.as_mut() {
+            if spec.proxy && spec.b == 0 {
+                let _ = b.client.send_raw(&proxy_v2("203.0.113.3:5555".parse().unwrap(), running.addr)).await;
+            }
             let from = b.out.stage;
             b.client.login(&p, from, Stage::Transferred, &mut b.out).await;
             if b.out.stage != Stage::Transferred || kinds(&b.out) != BASELINE {
-                v.push((format!("in-flight-connection-not-completed:{}", POINTS[b.point]), format!("B (at '{}' when the stop was requested) received {:?}, stage {:?}, error {:?}", POINTS[b.point], kinds(&b.out), b.out.stage, b.out.error)));
+                v.push((format!("in-flight-connection-not-completed:{}", point_name(spec.proxy, b.point)), format!("B (at '{}' when the stop was requested) received {:?}, stage {:?}, error {:?}", point_name(spec.proxy, b.point), kinds(&b.out), b.out.stage, b.out.error)));
             }
             let _ = b.client.wait_closed(Duration::from_secs(2)).await;
         }
@@ -167,7 +187,7 @@ fn run_schedule(spec: &Spec) -> Vec<(String, String)> {
             Err(_) => v.push(("listener-does-not-return-after-drain".into(), "listen() had not returned 2 s after the last in-flight connection finished".into())),
         }
         if spec.new_conn_at == 2 {
-            if let Some(t) = new_connection_served(running.addr).await {
+            if let Some(t) = new_connection_served(running.addr, spec.proxy).await {
                 v.push(("new-connection-served-after-stop".into(), t));
             }
         }
@@ -202,21 +222,21 @@ fn run_via_start(spec: &Spec) -> Vec<(String, String)> {
     let mut v = run_local(async {
         let mut v = vec![];
         let gate = Arc::new(Semaphore::new(0));
-        let Some(mut a) = drive_to(addr, spec.a.min(4), &gate, "127.0.0.2").await else {
+        let Some(mut a) = drive_to(addr, spec.a.min(4), &gate, "127.0.0.2", false).await else {
             common::machinery("could not bring connection A to its progress point (passage::start)");
         };
         unsafe {
             libc::kill(pid, libc::SIGINT);
         }
         tokio::time::sleep(Duration::from_millis(100)).await;
-        if let Some(t) = new_connection_served(addr).await {
+        if let Some(t) = new_connection_served(addr, false).await {
             v.push(("new-connection-served-after-stop".into(), format!("(passage::start + SIGINT) {t}")));
         }
         let p = LoginParams { wait: Duration::from_secs(2), ..Default::default() };
         let from = a.out.stage;
         a.client.login(&p, from, Stage::Transferred, &mut a.out).await;
         if a.out.stage != Stage::Transferred {
-            v.push((format!("in-flight-connection-not-completed:{}", POINTS[a.point]), format!("(passage::start + SIGINT) A received {:?}, error {:?}", kinds(&a.out), a.out.error)));
+            v.push((format!("in-flight-connection-not-completed:{}", point_name(spec.proxy, a.point)), format!("(passage::start + SIGINT) A received {:?}, error {:?}", kinds(&a.out), a.out.error)));
         }
         v
     });
@@ -260,12 +280,12 @@ pub fn run(cli: Cli) -> ! {
     let mut specs = vec![];
     for a in 0..7 {
         for m in 0..3 {
-            specs.push(Spec { a, b: usize::MAX, new_conn_at: m, a_stalls: false, via_start: false });
-            specs.push(Spec { a, b: a, new_conn_at: m, a_stalls: false, via_start: false });
+            specs.push(Spec { a, b: usize::MAX, new_conn_at: m, a_stalls: false, via_start: false, proxy: false });
+            specs.push(Spec { a, b: a, new_conn_at: m, a_stalls: false, via_start: false, proxy: false });
             if thorough {
                 for b in 0..7 {
                     if b != a {
-                        specs.push(Spec { a, b, new_conn_at: m, a_stalls: false, via_start: false });
+                        specs.push(Spec { a, b, new_conn_at: m, a_stalls: false, via_start: false, proxy: false });
                     }
                 }
             }
@@ -273,14 +293,22 @@ pub fn run(cli: Cli) -> ! {
     }
     if !thorough {
         for (a, b) in [(0, 6), (6, 0), (5, 2), (3, 5)] {
-            specs.push(Spec { a, b, new_conn_at: 1, a_stalls: false, via_start: false });
+            specs.push(Spec { a, b, new_conn_at: 1, a_stalls: false, via_start: false, proxy: false });
+        }
+    }
+    // the same placements with PROXY protocol enabled (point 0 = accepted, header still outstanding)
+    let plain: Vec<Spec> = specs.clone();
+    for s in plain {
+        if thorough || s.b == usize::MAX || s.a == 0 || s.b == 0 {
+            specs.push(Spec { proxy: true, ..s });
         }
     }
     for a in [0, 3, 5] {
-        specs.push(Spec { a, b: usize::MAX, new_conn_at: 0, a_stalls: true, via_start: false });
+        specs.push(Spec { a, b: usize::MAX, new_conn_at: 0, a_stalls: true, via_start: false, proxy: false });
     }
+    specs.push(Spec { a: 0, b: usize::MAX, new_conn_at: 0, a_stalls: true, via_start: false, proxy: true });
     for a in [0, 2, 4] {
-        specs.push(Spec { a, b: usize::MAX, new_conn_at: 0, a_stalls: false, via_start: true });
+        specs.push(Spec { a, b: usize::MAX, new_conn_at: 0, a_stalls: false, via_start: true, proxy: false });
     }
     let two = AtomicU64::new(0);
     par_for(specs.len(), |i| {
